@@ -415,3 +415,12 @@ package dnsserver
 //@   requires req != nil && req.URL != nil && req.Body != nil
 //@   modifies stamped
 //@   ensures own-bytes-only: err == nil ==> off(b) + len(b) <= stamped[arr(b)]
+
+// The per-request info is put into the context by every server before the
+// handler runs; the Must variant panics otherwise.
+//@ func MustRequestInfoFromContext
+//@   modifies nothing
+//@   ensures ri != nil
+//@ func MustServerInfoFromContext
+//@   modifies nothing
+//@   ensures si != nil
